@@ -24,6 +24,14 @@ func init() {
 			"prev/in-last-word", "prev/after-skipped-zero-words", "prev/prev-word", "prev/none", "prev/found-but-before-i", "bitmap>=500-words", "bitmap>=65536-words", "bitmap=2^31-64-bits"},
 		Families: func(c *mon.Config) []mon.Family {
 			return []mon.Family{
+				{Name: "cold-start", N: 1, Serial: true, Run: func(w *mon.W, _ int) {
+					for _, b := range [][]uint64{{0}, {^uint64(0)}, {0, 0, 0}, {1 << 63}, {1}} {
+						if !c13All(w, b) {
+							return
+						}
+					}
+					w.Bucket("cold-start")
+				}},
 				{Name: "all-ranges-structured", N: 3 * 4 * 4 * 3, Run: c13Structured},
 				{Name: "all-ranges-zoo", N: c.Pick(1500, 300000), Run: c13AllZoo},
 				{Name: "sampled-long", N: c.Pick(20000, 4000000), Run: c13Long},
